@@ -31,7 +31,9 @@ RULE = ('One run = one workbook of 2-3 books (root + satellites, 1-2 sheets '
         'satellite book one disk-fault kind of {ENOENT, EACCES, EIO at open, '
         'EIO mid-read, EISDIR, truncated, garbage, flipped byte, bad '
         'extension, file absent}, absent sheets, undefined names, unknown '
-        'functions (plain / _xlfn.), #REF! literals. Every subset of the '
+        'functions (plain / _xlfn.), #REF! literals (bare or '
+        'sheet-qualified), spill references into absent sheets / books. '
+        'Every subset of the '
         'fault points is executed when there are <= 4 (quick) / 6 (thorough) '
         'points, otherwise 8 / 24 seeded subsets; each execution = load root, '
         'finish (lazy completion meets the faults in work-list order), '
